@@ -3,8 +3,9 @@
 (* Models of property C16.  One module, four modes (constant Mode):        *)
 (*   "grid"    the loop nest of gaussian_blurring as a state machine, one  *)
 (*             action Visit per grid point, for every grid shape in scope  *)
-(*   "blur"    the same machine on concrete configurations; at the end of  *)
-(*             the enumeration the slot values are stated as Real terms    *)
+(*   "blur"    the same machine on concrete trajectories (every frame with *)
+(*             its own cell and bounds); at the end of the enumeration the *)
+(*             slot values of every frame are stated as Real terms         *)
 (*   "spatial" spatial_average: one action per frame, cursor on the file   *)
 (*   "window"  time_average: one action per window                         *)
 (* Variables: cfg (the input chosen in Init, constant afterwards), pc (loop*)
@@ -96,36 +97,56 @@ BlurGrids ==
   ELSE [1..2 -> 1..6] \cup [1..3 -> 2..4]
        \cup {<<5, 2, 3>>, <<2, 5, 2>>, <<3, 2, 5>>, <<1, 3, 2>>, <<3, 1, 4>>}
 
+\* cells of the frames of a trajectory: one cell index per frame.  Multi-frame sequences change box
+\* lengths, origin and tilt from frame to frame (NPT / deformed box): every frame has its own bounds
+\* and its own cell; <<2, 2>> is the constant box.
+BlurCellSeqs ==
+  << <<1>>, <<2>>, <<3>>, <<4>>, <<1, 2>>, <<3, 4>>, <<4, 1>>, <<2, 2>>,
+     <<5, 6>>, <<7, 5>>, <<6, 7>> >>
+
 InitBlur ==
-  \E ngv \in BlurGrids, ci \in 1..Len(BlurCells), pi \in 1..Len(PosSets), sc \in 1..Len(SigCuts) :
-    LET d == Len(ngv) IN
-    /\ Len(BlurCells[ci].H) = d
+  \E ngv \in BlurGrids, cs \in 1..Len(BlurCellSeqs), pi \in 1..Len(PosSets), sc \in 1..Len(SigCuts) :
+    LET d   == Len(ngv)
+        seq == BlurCellSeqs[cs]
+    IN
+    /\ Len(BlurCells[seq[1]].H) = d
     /\ Len(PosSets[pi][1][1]) = d
+    /\ Len(PosSets[pi]) = Len(seq)
     /\ \E m \in BlurMasks(d) :
-         /\ (7 * SumSeq(ngv) + ngv[1] + 3 * ci + SumSeq(m) + pi + 5 * sc) % NSHARDS = SHARD
-         /\ cfg = [ng |-> ngv, H |-> BlurCells[ci].H, bounds |-> BlurCells[ci].bounds, ppp |-> m,
+         /\ (7 * SumSeq(ngv) + ngv[1] + 3 * cs + SumSeq(m) + pi + 5 * sc) % NSHARDS = SHARD
+         /\ cfg = [ng |-> ngv,
+                   Hs |-> [f \in 1..Len(seq) |-> BlurCells[seq[f]].H],
+                   bs |-> [f \in 1..Len(seq) |-> BlurCells[seq[f]].bounds], ppp |-> m,
                    pos |-> [f \in 1..Len(PosSets[pi]) |->
-                              [j \in 1..Len(PosSets[pi][f]) |-> VAdd(PosSets[pi][f][j], BlurCells[ci].lo)]],
+                              [j \in 1..Len(PosSets[pi][f]) |-> VAdd(PosSets[pi][f][j], BlurCells[seq[f]].lo)]],
                    sig |-> SigCuts[sc][1], cut |-> SigCuts[sc][2]]
          /\ pc = FirstPoint(ngv)
          /\ acc = [slots |-> EmptySlots(ngv), nvis |-> 0]
 
 \* spec sanity: the product form CgImages is Cell!MinImage (checked on the first
-\* grid point of every configuration, against every particle of every frame)
+\* grid point of every configuration, against every particle of every frame, in the frame's cell)
 InvImagesAreMinImage ==
   acc.nvis = 0 =>
     \A f \in 1..Len(cfg.pos) : \A j \in 1..Len(cfg.pos[f]) :
       LET M  == GridScale(cfg.ng)
-          Hs == [i \in 1..Len(cfg.H) |-> VScale(M, cfg.H[i])]
-          v  == VSub(ScaledPoint(cfg.ng, cfg.bounds, pc), VScale(M, cfg.pos[f][j]))
+          Hs == [i \in 1..Len(cfg.Hs[f]) |-> VScale(M, cfg.Hs[f][i])]
+          v  == VSub(ScaledPoint(cfg.ng, cfg.bs[f], pc), VScale(M, cfg.pos[f][j]))
       IN  CgImages(Hs, v, cfg.ppp) = MinImage(Hs, v, cfg.ppp)
+\* every frame's grid spans that frame's bounds: first point = lower corner, last point = upper corner
+\* (lower corner on an axis with a single point), and the bounds are those of the frame's cell
+InvGridSpansFrameBounds ==
+  acc.nvis = 0 =>
+    \A f \in 1..Len(cfg.pos) :
+      LET d == Len(cfg.ng)  last == [k \in 1..d |-> cfg.ng[k] - 1] IN
+      /\ PointPos(cfg.ng, cfg.bs[f], FirstPoint(cfg.ng)) = [k \in 1..d |-> <<cfg.bs[f][k][1], 1>>]
+      /\ PointPos(cfg.ng, cfg.bs[f], last) = [k \in 1..d |-> <<(IF cfg.ng[k] = 1 THEN cfg.bs[f][k][1] ELSE cfg.bs[f][k][2]), 1>>]
+      /\ \A k \in 1..d : cfg.bs[f][k][2] - cfg.bs[f][k][1] >= cfg.Hs[f][k][k]
 
 IsPow2(n) == n \in {1, 2, 4, 8, 16}
 BlurSlot(pt) ==
   [pt  |-> pt,
-   pos |-> PointPos(cfg.ng, cfg.bounds, pt),
    fr  |-> [f \in 1..Len(cfg.pos) |->
-      LET cl    == Classify(cfg.ng, cfg.bounds, cfg.H, cfg.ppp, pt, cfg.pos[f], cfg.cut)
+      LET cl    == Classify(cfg.ng, cfg.bs[f], cfg.Hs[f], cfg.ppp, pt, cfg.pos[f], cfg.cut)
           ins   == SelectedIn(cl, {"in"})
           both  == SelectedIn(cl, {"in", "edge"})
       IN  [amb   |-> AmbiguousIn(cl),
@@ -134,7 +155,7 @@ BlurSlot(pt) ==
            lo    |-> BlurTermOf(cl, cfg.sig, ins),
            hi    |-> IF Len(both) = Len(ins) THEN << >> ELSE BlurTermOf(cl, cfg.sig, both)]]]
 BlurCase ==
-  [m |-> "blur", ng |-> cfg.ng, H |-> cfg.H, bounds |-> cfg.bounds, ppp |-> cfg.ppp, pos |-> cfg.pos,
+  [m |-> "blur", ng |-> cfg.ng, Hs |-> cfg.Hs, bs |-> cfg.bs, ppp |-> cfg.ppp, pos |-> cfg.pos,
    sig |-> cfg.sig, cut |-> cfg.cut,
    exactgrid |-> \A k \in 1..Len(cfg.ng) : IsPow2(Max2(cfg.ng[k] - 1, 1)),
    slots |-> [s \in 1..NPoints(cfg.ng) |-> BlurSlot(acc.slots[s - 1])]]
@@ -151,20 +172,28 @@ PropVal(f, i, c, pat) == ((f * 7 + i * i * 3 + c * 5 + i * c + pat) % 11) - 5
 RECURSIVE CgPow(_, _)
 CgPow(b, e) == IF e = 0 THEN 1 ELSE b * CgPow(b, e - 1)
 
+\* row order of a frame of the file (identity for one frame in three)
+RowOrder(a, N) == IF a % 3 = 0 THEN [k \in 1..N |-> k] ELSE CgPermByKey(LAMBDA i : (a * 7 + i * i * 5 + a * i) % 11, N)
+
 InitSpatial ==
   \E N \in (IF Quick THEN {3, 4} ELSE {3, 4, 5}), F \in 1..3, a1 \in 0..5, b1 \in 0..5, a2 \in 0..5,
-     nmax \in (IF Quick THEN {2, 30} ELSE {1, 2, 30}) :
+     nmax \in (IF Quick THEN {1, 2, 30} ELSE {1, 2, 3, 30}) :        \* below / at / above the counts (<= 3 listed ids)
     LET b2   == IF Quick THEN (b1 + 1) % NShapes ELSE (b1 + a2 + 1) % NShapes
         rank == (a1 + b1) % 3
         d    == 2 + (a1 % 2)
         C    == CgPow(d, rank)
         fl   == << FrameOf(a1, b1, N), FrameOf(a2, b2, N), FrameOf(a1 + a2 + 1, b2 + 2, N) >>
+        FL   == Min2(3, F + (b1 % 2))           \* the file may hold more frames than the property
+        bool == (a1 + a2 + N + nmax) % 4 = 0    \* a 0/1-valued property (flags): the mean is the fraction of ones
     IN
     /\ (F = 1 => a2 = 0)
+    /\ (Quick /\ nmax = 1) => (a1 + b1) % 2 = 0
     /\ (N + F + a1 + 2 * b1 + 3 * a2 + nmax) % NSHARDS = SHARD
-    /\ cfg = [N |-> N, F |-> F, nmax |-> nmax, rank |-> rank, d |-> d,
-              file |-> SubSeq(fl, 1, F),
-              prop |-> [f \in 1..F |-> [i \in 1..N |-> [c \in 1..C |-> PropVal(f, i, c, a1 + nmax)]]]]
+    /\ cfg = [N |-> N, F |-> F, nmax |-> nmax, rank |-> rank, d |-> d, kind |-> (IF bool THEN "bool" ELSE "num"),
+              file |-> SubSeq(fl, 1, FL),
+              rows |-> [f \in 1..FL |-> CgRows(fl[f], RowOrder(a1 + 2 * b1 + f + N, N))],
+              prop |-> [f \in 1..F |-> [i \in 1..N |-> [c \in 1..C |->
+                          IF bool THEN PropVal(f, i, c, a1 + nmax) % 2 ELSE PropVal(f, i, c, a1 + nmax)]]]]
     /\ pc = 0
     /\ acc = << >>
 
@@ -173,7 +202,7 @@ InitSpatial ==
 AvgFrame ==
   /\ Mode = "spatial"
   /\ Len(acc) < cfg.F
-  /\ acc' = Append(acc, SpatialStep(cfg.file, pc, cfg.prop[Len(acc) + 1], cfg.nmax))
+  /\ acc' = Append(acc, SpatialStep(cfg.rows, pc, cfg.prop[Len(acc) + 1], cfg.nmax))
   /\ pc'  = pc + 1
   /\ UNCHANGED cfg
 
@@ -193,28 +222,49 @@ InvSpatialConstant ==
   \A f \in 1..Len(acc) :
     LET k7 == [i \in 1..cfg.N |-> <<7>>] IN
     \A i \in 1..cfg.N : SpatialAvgFrame(k7, cfg.file[f], cfg.nmax)[i][1] = <<7, 1>>
+\* the row order of the file is not part of the input: every frame of rows is a permutation of the
+\* ids and files the abstract lists back under their ids (so InvSpatialMeanDefinition, stated on the
+\* abstract lists, holds for the result obtained from the rows)
+InvRowOrderIrrelevant ==
+  \A f \in 1..Len(cfg.rows) :
+    /\ CgIsPerm([k \in 1..cfg.N |-> cfg.rows[f][k][1]], cfg.N)
+    /\ CgOfRows(cfg.rows[f]) = cfg.file[f]
+\* a 0/1-valued property: the average is the fraction of ones among the particle and its delivered neighbours
+InvBoolIsFraction ==
+  cfg.kind = "bool" =>
+    \A f \in 1..Len(acc) : \A i \in 1..cfg.N : \A c \in 1..Len(cfg.prop[f][i]) :
+      LET v == acc[f][i][c] IN v[1] >= 0 /\ v[1] <= v[2]
+\* Nmax at or above every count of a frame changes nothing
+InvNmaxAboveCounts ==
+  \A f \in 1..Len(acc) :
+    (\A i \in 1..cfg.N : Len(cfg.file[f][i]) <= cfg.nmax) => acc[f] = SpatialAvgFrame(cfg.prop[f], cfg.file[f], 1000)
 InvNoSelfCountedTwice ==     \* scope sanity: the lists of the scope never contain the particle itself
-  \A f \in 1..cfg.F : \A i \in 1..cfg.N : Mult(cfg.file[f][i], i) = 0
+  \A f \in 1..Len(cfg.file) : \A i \in 1..cfg.N : Mult(cfg.file[f][i], i) = 0
 
 SpatialCase ==
-  [m |-> "spatial", N |-> cfg.N, F |-> cfg.F, nmax |-> cfg.nmax, rank |-> cfg.rank, d |-> cfg.d,
-   file |-> cfg.file, prop |-> cfg.prop, exp |-> acc]
+  [m |-> "spatial", N |-> cfg.N, F |-> cfg.F, nmax |-> cfg.nmax, rank |-> cfg.rank, d |-> cfg.d, kind |-> cfg.kind,
+   file |-> cfg.file, rows |-> cfg.rows, prop |-> cfg.prop, exp |-> acc]
 
 (***************************************************************************)
 (* window: pc = n (start of the next window, frames numbered from 0),      *)
 (* acc = rows produced so far.                                             *)
 (***************************************************************************)
+\* kinds of property: real, complex (two components: real and imaginary part), bool (0/1 flags)
+WindowKinds == <<"real", "complex", "bool">>
 InitWindow ==
-  \E T \in (IF Quick THEN 3..6 ELSE 3..9), N \in 1..2, C \in 1..2,
+  \E T \in (IF Quick THEN 3..6 ELSE 3..9), N \in 1..2, kd \in 1..3,
      dts \in {1, 10}, dti \in 1..3 :
-    LET dt == << <<1, 2>>, <<1, 8>>, <<3, 4>> >>[dti] IN
+    LET dt == << <<1, 2>>, <<1, 8>>, <<3, 4>> >>[dti]
+        C  == IF kd = 2 THEN 2 ELSE 1
+    IN
     \E m4 \in 4..(4 * (T - 1) + 3) :
-      /\ (Quick => (N + C + dts + dti) % 2 = 0)
-      /\ (T + N + C + dts + dti + m4) % NSHARDS = SHARD
-      /\ cfg = [T |-> T, N |-> N, C |-> C, dts |-> dts, dt |-> dt, m4 |-> m4,
+      /\ (Quick => (N + kd + dts + dti) % 2 = 0)
+      /\ (T + N + kd + dts + dti + m4) % NSHARDS = SHARD
+      /\ cfg = [T |-> T, N |-> N, C |-> C, kind |-> WindowKinds[kd], dts |-> dts, dt |-> dt, m4 |-> m4,
                 period |-> RMul(Interval(dts, dt), <<m4, 4>>),
                 ts |-> [f \in 1..T |-> 1000 + (f - 1) * dts],
-                prop |-> [f \in 1..T |-> [i \in 1..N |-> [c \in 1..C |-> PropVal(f, i, c, m4)]]]]
+                prop |-> [f \in 1..T |-> [i \in 1..N |-> [c \in 1..C |->
+                            IF kd = 3 THEN PropVal(f, i, c, m4) % 2 ELSE PropVal(f, i, c, m4)]]]]
       /\ pc = 0
       /\ acc = << >>
 
@@ -247,10 +297,18 @@ InvWindowMeanDefinition ==
     IN  /\ Cardinality(fr) = W
         /\ acc[k].mean[i][c] = RNorm(s, Cardinality(fr))
 InvRowsAtMostComplete == Len(acc) <= cfg.T - W + 1
+\* the mean of integer-valued data is the exact rational, not its integer part: wherever the window sum
+\* is not a multiple of w the mean has denominator > 1; a 0/1-valued property averages to the fraction of ones
+InvWindowMeanIsRational ==
+  \A k \in 1..Len(acc) : \A i \in 1..cfg.N : \A c \in 1..cfg.C :
+    LET s == WindowSum(cfg.prop, k - 1, W, i, c)  m == acc[k].mean[i][c] IN
+    /\ m[1] * W = s * m[2]
+    /\ (s % W # 0) => m[2] > 1
+    /\ cfg.kind = "bool" => (m[1] >= 0 /\ m[1] <= m[2])
 
 WindowDone == pc + W > cfg.T
 WindowCase ==
-  [m |-> "window", T |-> cfg.T, N |-> cfg.N, C |-> cfg.C, ts |-> cfg.ts, dt |-> cfg.dt, period |-> cfg.period,
+  [m |-> "window", T |-> cfg.T, N |-> cfg.N, C |-> cfg.C, kind |-> cfg.kind, ts |-> cfg.ts, dt |-> cfg.dt, period |-> cfg.period,
    w |-> W, rows |-> SortedSeq(RowsSet(cfg.T, W)), prop |-> cfg.prop,
    exp |-> [k \in 1..Len(acc) |-> [mean |-> acc[k].mean, centre |-> SortedSeq(acc[k].centre)]]]
 
